@@ -20,6 +20,7 @@ import (
 	"github.com/alibaba/sentinel-golang/core/base"
 	"github.com/alibaba/sentinel-golang/core/hotspot"
 	"github.com/alibaba/sentinel-golang/core/stat"
+	"github.com/alibaba/sentinel-golang/util"
 	"verifharness/internal/vh"
 )
 
@@ -30,8 +31,29 @@ type pair struct {
 	B string
 }
 
+// spinClock is the virtual clock plus a watchdog: PerformChecking reads the clock once per iteration of its
+// retry loop, so an Entry that reads it more than spinLimit times is spinning (sequentially the loops must
+// finish in their first iteration). The panic is recovered by SlotChain.Entry; the interpreter reports `spin`.
+type spinClock struct {
+	*vh.Clock
+	reads int
+	spun  bool
+}
+
+const spinLimit = 1000
+
+func (c *spinClock) CurrentTimeMillis() uint64 {
+	c.reads++
+	if c.reads > spinLimit {
+		c.spun = true
+		c.reads = 0
+		panic("verif: PerformChecking does not terminate")
+	}
+	return c.Clock.CurrentTimeMillis()
+}
+
 type Interp struct {
-	clk   *vh.Clock
+	clk   *spinClock
 	rules []*hotspot.Rule
 }
 
@@ -39,7 +61,9 @@ func New() vh.Interp {
 	runtime.GOMAXPROCS(1)
 	runtime.LockOSThread()
 	vh.Silence()
-	return &Interp{clk: vh.NewClock(startMs)}
+	c := &spinClock{Clock: vh.NewClock(startMs)}
+	util.SetClock(c)
+	return &Interp{clk: c}
 }
 
 func (it *Interp) Reset() {
@@ -181,9 +205,15 @@ func (it *Interp) Step(t []string, op string) string {
 			opts = append(opts, sentinel.WithAttachments(m))
 		}
 		it.clk.Sleeps = it.clk.Sleeps[:0]
+		it.clk.reads, it.clk.spun = 0, false
 		e, b := sentinel.Entry(res, opts...)
 		out := "pass"
-		if b != nil {
+		if it.clk.spun {
+			out = "spin"
+			if e != nil {
+				e.Exit()
+			}
+		} else if b != nil {
 			if b.BlockType() != base.BlockTypeHotSpotParamFlow {
 				out = "block-other " + b.BlockType().String()
 			} else {
